@@ -137,11 +137,14 @@ void shim_case(Rng& rng, int P, std::vector<std::size_t> const& calls, int integ
         }
         logs[rank].final_text = text.str();
     });
+    std::uint64_t misuse = vf_mpi_world_misuse();
+    vf_mpi_world_misuse() = 0;
     static const char* names[] = {"mpi_plain", "mpi_vegas", "mpi_multi_channel"};
     J info;
     info.s("T", tname<T>::get()).s("integrator", names[integrator]).u("world", P).uv("calls", calls).u("dims", dims).u("usage_per_number", k);
     ++ctx().evaluations;
     count("shim_runs");
+    if (misuse) { viol(std::string("library-used-MPI_COMM_WORLD-instead-of-the-communicator-it-was-given:") + names[integrator], J(info).u("uses", misuse)); return; }
     count("shim_collectives", world.collectives);
     if (world.aborted) { viol(std::string("shim:collective-mismatch-or-hang:") + names[integrator], J(info).s("reason", world.abort_reason)); return; }
     // walk the iterations: every rank's invocations must tile [0,total) contiguously in rank order
